@@ -40,6 +40,7 @@ type histGenOpts struct {
 	Abandon       bool
 	UniqueValues  bool
 	BigBatches    bool
+	SyncHeavy     bool // more Sync / abandon / reopen steps (C05)
 }
 
 // normalizeBatch reorders points that fall into the same slot of the archive they are routed
@@ -196,14 +197,30 @@ func genWindows(t *rapid.T, l Layout, now int64, n int) []Window {
 
 // genHistory draws a history. The clock never leaves the domain of zone Z7.
 func genHistory(t *rapid.T, l Layout, o histGenOpts) HistCase {
-	now := genNow(t, l)
+	return genHistoryAt(t, l, o, genNow(t, l))
+}
+
+// genHistoryAt draws a history starting at the given clock.
+func genHistoryAt(t *rapid.T, l Layout, o histGenOpts, now int64) HistCase {
 	c := HistCase{L: l, Now: now}
 	coarse := l.Archives[len(l.Archives)-1].Step
 	hi := int64(math.MaxUint32) - 2*coarse - 1
 	n := rapid.IntRange(1, o.MaxOps).Draw(t, "ops")
+	syncedOnce := false
 	for i := 0; i < n; i++ {
 		var op Op
-		k := rapid.IntRange(0, 19).Draw(t, "opKind")
+		maxKind := 19
+		if o.SyncHeavy {
+			maxKind = 27
+		}
+		k := rapid.IntRange(0, maxKind).Draw(t, "opKind")
+		if k >= 20 {
+			if k < 24 {
+				k = 16 // sync
+			} else {
+				k = 18 // abandon / reopen
+			}
+		}
 		switch {
 		case k < 6:
 			op.Kind = "update"
@@ -250,14 +267,17 @@ func genHistory(t *rapid.T, l Layout, o histGenOpts) HistCase {
 			now += op.Advance
 		case k < 18:
 			op.Kind = "sync"
+			syncedOnce = true
 		default:
 			switch {
-			case o.Abandon && rapid.Bool().Draw(t, "abandon"):
+			case o.Abandon && syncedOnce && rapid.IntRange(0, 2).Draw(t, "abandon") > 0:
 				op.Kind = "abandon"
 			case o.Reopen:
 				op.Kind = "reopen"
+				syncedOnce = true
 			default:
 				op.Kind = "sync"
+				syncedOnce = true
 			}
 		}
 		if o.Windows > 0 {
@@ -423,6 +443,12 @@ func (h *histRunner) apply(op Op) (fs []Finding) {
 	case "abandon":
 		// drop the handle without Sync: the file must hold the last synced state
 		h.db.Close()
+		if h.facts["sync"]+h.facts["reopen"] == 0 {
+			// nothing was ever synced: the file holds no header yet, so the history ends here
+			h.db = nil
+			h.facts["abandon-before-first-sync"]++
+			return
+		}
 		db, err := openWT(h.path)
 		if err != nil {
 			fs = append(fs, h.finding("reopen-error", "Open after abandon failed: %v", err))
